@@ -443,6 +443,18 @@ Theorem C07_block_locations : forall chunks b, In b (blocks chunks) ->
 Proof. exact blocks_locations. Qed.
 Print Assumptions C07_block_locations.
 
+(* ... and that is where put_dask_array stores it: after the put EVERY dask block is held under the object key printed
+   from its location (shifted by the offset), with its own shape and elements -- any chunking in the domain, any offset,
+   any prior store content (together with C07_put_array_frame: and nothing else changes) *)
+Theorem C07_put_array_stores_blocks : forall (A : Type) (st : store A) (arr : str) (dt : Z) (f : list Z -> A)
+    (chunks : list (list Z)) (off : list Z) b,
+  Forall (fun cs => Forall (fun c => 0 < c) cs \/ cs = [0]) chunks ->
+  (off = [] \/ List.length off = List.length chunks) ->
+  In b (blocks chunks) ->
+  lookup (block_key arr off b) (fst (put_array st arr dt f chunks off)) = Some (OChunk dt (slice_shape b) (extract f b)).
+Proof. exact put_stores_top. Qed.
+Print Assumptions C07_put_array_stores_blocks.
+
 Example C07_block_locations_example :
   blocks [[3; 1; 2]; [2; 5]]
   = [[(0,3);(0,2)]; [(0,3);(2,7)]; [(3,4);(0,2)]; [(3,4);(2,7)]; [(4,6);(0,2)]; [(4,6);(2,7)]]
